@@ -246,6 +246,9 @@ def check_property(prop, tier, seed):
         for oid, es in errs_by_ob.items():
             if '/sig#' not in oid and es[0].get('fn') in info:
                 internal_fail.setdefault(es[0]['fn'], []).append(oid)
+        # functions whose remaining obligations hit the solver's resource limit: only the reported failures are decided
+        for f_, why_ in (res.get('partial') or {}).items():
+            internal_fail.setdefault(f_, []).append('%s/resource-limit' % f_)
         for oid, ob in sorted(mine.items()):
             fr = res['fres'].get(ob['fn'])
             es = errs_by_ob.get(oid, [])
